@@ -3,7 +3,7 @@
 PROP = {
     "model": "C15_Blob.Model",
     "design_ref": "DESIGN.md 7.15",
-    "level_text": "(also: a successful write is within its quota whatever the chunking; a write that dies after any number of its storage calls is never readable) Coq theorems over all chunk lists, sizes, keys and stores: read(write(chunks)) returns exactly the chunks in order with the recorded size/descriptor (for the byte order of chunk numbers the code uses, taken from the source by the translator), refused/interrupted writes are never readable as complete, writes of one key leave every other key's rows untouched; the model is tied to iblobstoragestg by replaying observed scenarios (storage calls, results, read-back digests) inside Coq on every run",
+    "level_text": "(also: a successful write is within its quota whatever the chunking; a write that dies after any number of its storage calls is never readable) Coq theorems over all chunk lists, sizes, keys and stores: read(write(chunks)) returns exactly the chunks in order with the recorded size/descriptor (for the byte order of chunk numbers the code uses, taken from the source by the translator), refused/interrupted writes are never readable as complete, writes of one key leave every other key's rows untouched; the model is tied to iblobstoragestg by replaying observed scenarios (storage calls, results, read-back digests) inside Coq on every run; a third of the writes go through the write step of the BLOB processor (pkg/processors/blobber, export shim under build tag verif), readers may end with a private error, io.ErrUnexpectedEOF (a request body cut short) or a cancelled context, keys include cluster twins (workspace ids differing only in the cluster bits), and every write runs under a 60 s watchdog whose expiry is an outcome of that case",
     "level_note": "trusted: Coq kernel/vm_compute, translator, harness; modelled not verified: the IAppStorage backend (covered by C06), JSON encoding of the state row, io.Reader contract; the chunk payload is abstract (rows are never split or merged, checked by the correspondence)",
     "properties_file": "theories/Properties/C15.v",
     "n": {"quick": 90, "thorough": 400},
